@@ -29,12 +29,12 @@ def main : IO Unit := do
     (s!"client={cl} client_no_context_takeover={a} server_no_context_takeover={b}",
       run (envTakeover cl a b) c_msgWriter_flateContextTakeover, ⟨[], .ret (b2s (writerTakeover cl ⟨a, b⟩))⟩))
   report "writeFrame_guard" (bools.flatMap fun cs => bools.flatMap fun cl => bools.flatMap fun fl => bools.flatMap fun fin =>
-    bools.flatMap fun le => ops.map fun op =>
-    (s!"closeSent={cs} client={cl} flate={fl} fin={fin} lockErr={le} opcode={op}",
-      run (envWriteFrame cs cl fl fin le op false) c_Conn_writeFrame, writeFrameGuardExpected cs le op))
-  report "writeFrame_emission" (bools.flatMap fun cl => bools.flatMap fun fl => bools.flatMap fun fin => ops.map fun op =>
-    (s!"client={cl} flate={fl} fin={fin} opcode={op}",
-      run (envWriteFrame false cl fl fin false op true) c_Conn_writeFrame, writeFrameEmissionExpected fin op))
+    bools.flatMap fun le => bools.flatMap fun sr => ops.map fun op =>
+    (s!"closeSent={cs} client={cl} flate={fl} fin={fin} lockErr={le} staleRsv1={sr} opcode={op}",
+      run (envWriteFrame cs cl fl fin le sr false op false) c_Conn_writeFrame, writeFrameGuardExpected cs le op))
+  report "writeFrame_emission" (bools.flatMap fun cl => bools.flatMap fun fl => bools.flatMap fun fin => bools.flatMap fun sr => bools.flatMap fun sf => ops.map fun op =>
+    (s!"client={cl} flate={fl} fin={fin} previousFrameRsv1={sr} previousFrameFin={sf} opcode={op}",
+      run (envWriteFrame false cl fl fin false sr sf op true) c_Conn_writeFrame, writeFrameEmissionExpected cl fl fin op))
   report "reader_sequencing" (bools.flatMap fun mf => bools.flatMap fun e => ops.map fun op =>
     (s!"previousMessageFinished={mf} ioErr={e} opcode={op}", run (envReader mf e op) c_Conn_reader, readerExpected mf e op))
   report "msgReader_read_sequencing" (bools.flatMap fun fin => bools.flatMap fun fl => bools.flatMap fun cl => bools.flatMap fun big => ops.map fun op =>
